@@ -53,7 +53,8 @@ def check(ro):
     if ok and not tclose(v, ro_start):
         mism('ro.start_time', ro_start, v)
     ok, v = call(ro, 'duration', fails, PROP, 'RunningOrder')
-    if ok and all_timed and not close(v, sum(durs) if durs else 0) and not (not durs and v is None):
+    if ok and all_timed and not close(v, sum(durs) if durs else 0):
+        # (no stories at all: every story has a duration, and their sum is 0)
         mism('ro.duration', sum(durs), v)
     t = 0.0
     last_end = None
@@ -159,7 +160,7 @@ DUR_TEXT = ['0', '1', '2', '3', '5', '10', '0.25', '0.5', '0.75', '1.75', '12.5'
 
 @st.composite
 def timed_ro(draw):
-    n = draw(st.integers(1, 8))
+    n = draw(st.sampled_from([0, 1, 1, 2, 2, 3, 3, 4, 5, 6, 7, 8]))
     stories = []
     for i in range(n):
         shape = draw(st.sampled_from(['dur', 'tt+mt', 'tt', 'mt', 'all', 'dur', 'tt+mt'] +
